@@ -110,3 +110,18 @@ theorem shortestIntP_map_aff (div tol : Rat) (cdiv : Nat) (p a b : Rat) (ha : 0 
       exact pick_map_aff tol cdiv a b ha _ _
 
 end OptiVerif.Quant
+
+namespace OptiVerif.Quant
+
+/-- sorting forgets the order of the samples -/
+theorem sort_perm_eq {l l' : List Rat} (h : l.Perm l') : sort l = sort l' := by
+  apply List.Perm.eq_of_pairwise (le := (· ≤ ·)) (fun a b _ _ hab hba => le_antisymm hab hba) (sort_sorted l) (sort_sorted l')
+  exact (sort_perm l).trans (h.trans (sort_perm l').symm)
+
+/-- **`shortest_int` depends on the multiset of samples only** -/
+theorem shortestIntP_perm (div tol : Rat) (cdiv : Nat) (p : Rat) {data data' : List Rat} (h : data.Perm data') :
+    shortestIntP div tol cdiv p data = shortestIntP div tol cdiv p data' := by
+  unfold shortestIntP
+  rw [sort_perm_eq h]
+
+end OptiVerif.Quant
